@@ -37,6 +37,6 @@ CONFIG = {
         "killing of the plugin after a failed Start is Props.C01.start_err_kills (model) and observed here via the runner's Kill count / process death within 2 s",
     ],
     "timeout": {"quick": 900, "thorough": 3000},
-    "level_text": "Lean theorems over an executable model of both sides of the version negotiation (Model/Negotiate.lean: the host's and the plugin's different legacy folds, the rendering of PLUGIN_PROTOCOL_VERSIONS, its parsing with invalid entries skipped, the plugin's descending double loop with its lowest-version fallback, the client's check) where a Go map is a key-unique association list in ARBITRARY order: for every pair of finite version maps, every iteration order, every environment string: if the sets intersect the plugin announces the maximum common version, the client accepts exactly that version and each side uses its own set registered under it (pick_highest_common, client_accepts_pick); whenever the client accepts, both sides are on the same version (never_different_versions, unconditional); disjoint sets give the incompatible-version error with the plugin announcing its lowest version (disjoint_fails); no / empty / all-invalid list gives the lowest (no_list_lowest); partly invalid lists behave as their valid sub-list; render/parse round-trips; the outcome is independent of iteration order (order_irrelevant, with homogeneity needed only for the wire protocol). Witness theorems for each structural fact (descending sort, fallback = last visited, client equality check). Facts re-extracted from server.go / client.go each run; ~61 000 in-process cases per run (all 64x64 subset pairs of {0..5} x legacy variants x corrupted lists x GRPCServer/kinds variants through the real protocolVersion and checkProtoVersion) plus 40 end-to-end launches with identity-tagged plugin sets are compared with the model. Sixth round: every end-to-end launch carries a stale PLUGIN_PROTOCOL_VERSIONS on the caller's command — what the plugin is told is still what this client offers.",
+    "level_text": "Lean theorems over an executable model of both sides of the version negotiation (Model/Negotiate.lean: the host's and the plugin's different legacy folds, the rendering of PLUGIN_PROTOCOL_VERSIONS, its parsing with invalid entries skipped, the plugin's descending double loop with its lowest-version fallback, the client's check) where a Go map is a key-unique association list in ARBITRARY order: for every pair of finite version maps, every iteration order, every environment string: if the sets intersect the plugin announces the maximum common version, the client accepts exactly that version and each side uses its own set registered under it (pick_highest_common, client_accepts_pick); whenever the client accepts, both sides are on the same version (never_different_versions, unconditional); disjoint sets give the incompatible-version error with the plugin announcing its lowest version (disjoint_fails); no / empty / all-invalid list gives the lowest (no_list_lowest); partly invalid lists behave as their valid sub-list; render/parse round-trips; the outcome is independent of iteration order (order_irrelevant, with homogeneity needed only for the wire protocol). Witness theorems for each structural fact (descending sort, fallback = last visited, client equality check). Facts re-extracted from server.go / client.go each run; ~61 000 in-process cases per run (all 64x64 subset pairs of {0..5} x legacy variants x corrupted lists x GRPCServer/kinds variants through the real protocolVersion and checkProtoVersion) plus 40 end-to-end launches with identity-tagged plugin sets are compared with the model. Sixth round: every end-to-end launch carries a stale PLUGIN_PROTOCOL_VERSIONS on the caller's command — what the plugin is told is still what this client offers. Eighth round: hosts that allow one wire protocol only when the version sets do not intersect (the error is the incompatible-version one whatever protocol the plugin's lowest set uses).",
     "level_note": "Full strength on the model. The incompatible-version error has no exported sentinel: it is recognised by the prefix of its text. For a plugin set mixing gRPC and net/rpc plugins the announced protocol depends on map iteration order (API requires homogeneous sets; theorem inhomogeneous_set_order_matters); the correspondence accepts either there.",
 }
